@@ -6,6 +6,7 @@ import (
 	"context"
 	"encoding/json"
 	"fmt"
+	"runtime"
 	"sort"
 	"strings"
 	"sync"
@@ -73,8 +74,8 @@ type verifEtcd struct {
 	log     []*clientv3.Event // every committed change, in revision order
 	hold    chan struct{}     // non-nil: Watch calls wait here (the replacement stream is not created yet)
 	entered int               // Watch calls that have been entered
-	failing string // "" | "hang" (no answer until the request context is done) | "err" (immediate error)
-	failed  int    // Get attempts that failed
+	failing string            // "" | "hang" (no answer until the request context is done) | "err" (immediate error)
+	failed  int               // Get attempts that failed
 }
 
 func newVerifEtcd() *verifEtcd {
@@ -166,7 +167,13 @@ func (e *verifEtcd) Watch(ctx context.Context, key string, opts ...clientv3.OpOp
 	hold := e.hold
 	e.mu.Unlock()
 	if hold != nil {
-		<-hold
+		select {
+		case <-hold:
+		case <-ctx.Done(): // like clientv3: a watch on a cancelled context yields a closed channel
+			closed := make(chan clientv3.WatchResponse)
+			close(closed)
+			return closed
+		}
 	}
 	e.mu.Lock()
 	if w.rev > 0 {
@@ -393,6 +400,42 @@ type verifSub struct {
 
 var verifSeq int64
 
+// verifQuiet waits until every watchStream goroutine of the cluster is parked in its select: a stream goroutine that
+// has taken a response (even the empty barrier) but has not finished handleWatchEvents must not meet a reload,
+// which waits for the watch group while HOLDING c.lock (registry.go:125-129) -- see the "reload_race" event.
+func verifQuiet(cl *cluster) bool {
+	needle := fmt.Sprintf("(*cluster).watchStream(%p,", cl) // the streams of this case's cluster
+	buf := make([]byte, 1<<20)
+	return verifWaitFor(func() bool {
+		var n int
+		for {
+			n = runtime.Stack(buf, true)
+			if n < len(buf) {
+				break
+			}
+			buf = make([]byte, 2*len(buf))
+		}
+		for _, g := range strings.Split(string(buf[:n]), "\n\n") {
+			if !strings.Contains(g, needle) {
+				continue
+			}
+			head := g
+			if i := strings.IndexByte(g, '\n'); i >= 0 {
+				head = g[:i]
+			}
+			if !strings.Contains(head, "[select") || strings.Contains(g, "handleWatchEvents") {
+				return false
+			}
+		}
+		return true
+	})
+}
+
+// verifTryLock: the cluster lock may be held for ever by a deadlocked reload; observations give up instead
+func verifTryLock(mu *sync.Mutex) bool {
+	return verifWaitFor(mu.TryLock)
+}
+
 func verifWaitFor(cond func() bool) bool {
 	deadline := time.Now().Add(verifWait)
 	for i := 0; ; i++ {
@@ -436,6 +479,20 @@ func verifDeliver(etcd *verifEtcd, evs []*clientv3.Event) string {
 // events only change the store; "reload" is a connection loss and recovery seen by the stateWatcher.
 func TestVerifDriver(t *testing.T) {
 	verifdrv.Run(t, func(raw json.RawMessage) any {
+		// per-case watchdog: a case that does not finish is reported as that case, the run goes on
+		res := make(chan any, 1)
+		go func() { res <- verifRunCase(raw) }()
+		select {
+		case r := <-res:
+			return r
+		case <-time.After(12 * verifWait):
+			return map[string]any{"error": "hung: the case did not finish"}
+		}
+	})
+}
+
+func verifRunCase(raw json.RawMessage) any {
+	{
 		var cs verifCase
 		if err := json.Unmarshal(raw, &cs); err != nil {
 			return map[string]any{"error": err.Error()}
@@ -593,6 +650,10 @@ func TestVerifDriver(t *testing.T) {
 				if !watching {
 					break
 				}
+				if !verifQuiet(cl) {
+					stuck = "watch streams do not come to rest"
+					break
+				}
 				etcd.mu.Lock()
 				etcd.failing = ev.Fail
 				f0 := etcd.failed
@@ -622,6 +683,28 @@ func TestVerifDriver(t *testing.T) {
 					break
 				}
 				stuck = finishReload(opened0)
+			case "reload_race":
+				// PROBE (not generated): a watch response is taken by its stream goroutine while reload is about to take
+				// c.lock. reload then holds the lock across watchGroup.Wait() and the stream goroutine waits for the lock
+				// in handleWatchEvents. The driver forces the order by holding the lock while both queue up on it.
+				if !watching || !verifQuiet(cl) {
+					break
+				}
+				live := etcd.live()
+				if len(live) == 0 {
+					break
+				}
+				cl.lock.Lock()
+				go cl.reload(EtcdClient(etcd))
+				time.Sleep(10 * time.Millisecond) // reload is the first waiter
+				if !live[len(live)-1].send(clientv3.WatchResponse{}) {
+					stuck = "watch stream not read"
+				}
+				time.Sleep(10 * time.Millisecond) // the stream goroutine queues behind it
+				cl.lock.Unlock()
+				if stuck == "" {
+					stuck = finishReload(opened0)
+				}
 			case "cancel", "cancel_end":
 				// the server cancels the most recent stream of the prefix while the connection stays up
 				if ev.T == "cancel" {
@@ -712,7 +795,14 @@ func TestVerifDriver(t *testing.T) {
 				}
 				per.Cvals = [][2]string{}
 				if cl != nil {
-					cl.lock.Lock()
+					if !verifTryLock(&cl.lock) {
+						if stuck == "" {
+							stuck = "hung"
+						}
+						st.Stuck = "hung: cluster lock never released (reload waiting for a watch stream that waits for the lock)"
+						st.Per = append(st.Per, per)
+						continue
+					}
 					vals, ok := cl.values[pfx]
 					per.HasCvals = ok
 					for k, v := range vals {
@@ -752,5 +842,5 @@ func TestVerifDriver(t *testing.T) {
 			steps = append(steps, st)
 		}
 		return map[string]any{"steps": steps}
-	})
+	}
 }
